@@ -69,6 +69,9 @@ var c01Extras = map[string]string{
 	// behind must not reach the literals of a template parsed earlier)
 	"x_esc_a":    "{{ 'line\\nA\\t1' ~ \"q\\\"A\" }}|{{ 'it\\'s A' }}",
 	"x_esc_b":    "{{ 'other\\\\B\\n2, a longer literal than the first one' }}|{{ \"dq\\\"B\\\"\" }}|{{ 'b\\'s' }}",
+	"x_sbx_unl":  "U[{% include 'x_unlisted' sandboxed %}]",
+	// filter arguments taken from the context next to literal ones (rendered with several contexts)
+	"x_argchain": "{{ 'abcdefgh'|slice(c01n, 2) }}|{% for ch in 'abcdefgh'|split('')|slice(c01n, 3) %}{{ ch }}{% endfor %}|{{ nope|default(c01n)|number_format(c01n, '.', ',') }}|{{ nope|default('-')|replace('-', c01n ~ '+')|upper }}",
 	"x_unlisted": "{{ 'a-b'|replace('-', '+') }}{{ {'k': 1}|keys|join }}{{ [3,1]|merge([2])|join(',') }}",
 	// the same struct type reached as a value and through a pointer, in separate templates: the
 	// order in which a process meets the two forms must not matter
@@ -334,6 +337,7 @@ func genC01(t *rapid.T) C01Case {
 		}
 		c.Worlds = append(c.Worlds, srcs)
 		c.DefaultPolicy = append(c.DefaultPolicy, rapid.IntRange(0, 2).Draw(t, "defaultpolicy") == 0)
+		sc.Ctx.Set("c01n", Int(int64(w+1)))
 		sc.Ctx.Set("c01mv", ZT(Hash([]string{"Name", "N"}, []*E{Str("v<" + fmt.Sprint(w)), Int(int64(w + 2))}), "meth"))
 		sc.Ctx.Set("c01mp", ZT(Hash([]string{"Name", "N"}, []*E{Str("p&" + fmt.Sprint(w)), Int(int64(w + 5))}), "ptrmeth"))
 		c.Ctxs = append(c.Ctxs, sc.Ctx)
@@ -347,12 +351,21 @@ func genC01(t *rapid.T) C01Case {
 		eng := rapid.IntRange(0, nw-1).Draw(t, "eng")
 		names := sortedTemplateNames(c.Worlds[eng])
 		op := C01Op{Eng: eng}
-		switch k := rapid.IntRange(0, 26).Draw(t, "opkind"); {
+		switch k := rapid.IntRange(0, 27).Draw(t, "opkind"); {
+		case k == 27:
+			// one template whose filter arguments come from the context, rendered with two contexts
+			other := rapid.IntRange(0, len(c.Ctxs)-1).Draw(t, "argctx")
+			c.Ops = append(c.Ops, C01Op{Op: "render", Eng: eng, Name: "x_argchain", Ctx: eng}, C01Op{Op: "render", Eng: eng, Name: "x_argchain", Ctx: other},
+				C01Op{Op: "render", Eng: eng, Name: "x_argchain", Ctx: eng})
+			continue
 		case k == 26:
 			// one engine is configured further; any engine then renders the templates that name the addition
-			cfg := rapid.SampledFrom([]string{"g:cfg_a", "g:cfg_b", "f:cfg_fn", "|cfg_filter", "|upper", "f:max", "s:strict", "s:strict"}).Draw(t, "cfg")
+			cfg := rapid.SampledFrom([]string{"g:cfg_a", "g:cfg_b", "f:cfg_fn", "|cfg_filter", "|upper", "f:max", "s:strict", "s:strict", "p:replace", "p:keys", "p:merge"}).Draw(t, "cfg")
 			other := rapid.IntRange(0, len(c.Worlds)-1).Draw(t, "cfgreader")
 			nm := rapid.SampledFrom([]string{"x_cfg", "x_cfg_fn", "x_cfg_filter", "x_cfg_inc", "x_cfg_inc"}).Draw(t, "cfgname")
+			if strings.HasPrefix(cfg, "p:") {
+				nm = rapid.SampledFrom([]string{"x_sbx_unl", "x_sbx_unl", "x_sbx_nest"}).Draw(t, "polname")
+			}
 			c.Ops = append(c.Ops, C01Op{Op: "render", Eng: other, Name: nm, Ctx: other}, C01Op{Op: "configure", Eng: eng, Src: cfg},
 				C01Op{Op: "render", Eng: other, Name: nm, Ctx: other}, C01Op{Op: "render", Eng: eng, Name: nm, Ctx: eng})
 			continue
@@ -464,7 +477,7 @@ func genC01(t *rapid.T) C01Case {
 	return c
 }
 
-const c01Rule = "histories of 5-40 (thorough 200) operations over 1-3 engines, each holding a template set from the structural generators (control flow, inheritance with parent(), include chains, macro libraries in five call forms, apply/spaceless) plus failing templates (syntax error, unclosed tag, include of a missing template, include of a broken template, division by zero) and a template above 4096 bytes; operations: Render / RenderTo / Load+Render, bursts of up to 130 renders of one template, repeat of the previous call, ParseTemplate+Render of valid, invalid, small and > 4096-byte sources (also of other engines' sources), RegisterString / LoadFromCompiledData / RegisterTemplate (also of names whose lookup failed or was ignored earlier, of a name whose old handle is still held, and of the parent behind a relative extends/include), a struct reached by value and by pointer in separate templates, templates with escaped string literals around a parse of other escaped literals, SetCache, SetDebug, AddGlobal / AddFunction / AddFilter on one of the engines (the others must not see it), runtime.GC once or twice; after every render the result is compared with a pristine engine in a fresh OS process; non-trivial = the checked render is preceded by a render of the same cached template, a failing render or a GC; distinct by history"
+const c01Rule = "histories of 5-40 (thorough 200) operations over 1-3 engines, each holding a template set from the structural generators (control flow, inheritance with parent(), include chains, macro libraries in five call forms, apply/spaceless) plus failing templates (syntax error, unclosed tag, include of a missing template, include of a broken template, division by zero) and a template above 4096 bytes; operations: Render / RenderTo / Load+Render, bursts of up to 130 renders of one template, repeat of the previous call, ParseTemplate+Render of valid, invalid, small and > 4096-byte sources (also of other engines' sources), RegisterString / LoadFromCompiledData / RegisterTemplate (also of names whose lookup failed or was ignored earlier, of a name whose old handle is still held, and of the parent behind a relative extends/include), a struct reached by value and by pointer in separate templates, templates with escaped string literals around a parse of other escaped literals, SetCache, SetDebug, AddGlobal / AddFunction / AddFilter / a relaxed default policy of its own on one of the engines (the others must not see it), a template whose filter arguments come from the context rendered with several contexts, runtime.GC once or twice; after every render the result is compared with a pristine engine in a fresh OS process; non-trivial = the checked render is preceded by a render of the same cached template, a failing render or a GC; distinct by history"
 
 func TestC01History(t *testing.T) {
 	r := NewRec(t, "C01", c01Rule)
